@@ -135,7 +135,7 @@ def run_s(ctx):
     tot = {"executions": 0, "points": 0}
     viols, per, distinct = [], {}, 0
     for scn in SCENARIOS:
-        b = bound if len(SCENARIOS[scn]) < 3 or ctx.thorough else 1
+        b = bound if len(SCENARIOS[scn]) < 3 else (2 if ctx.thorough else 1)
         h = Harness(scn)
         root = h.run([])
         for cause, msg in judge(root):
